@@ -181,7 +181,6 @@ func (q *Queue) Replace(elem *queue.Elem) (replaced bool, err error) {
 }
 
 func (q *Queue) Read(pids []packets.PacketID) (rs []*queue.Elem, err error) {
-	now := time.Now()
 	q.cond.L.Lock()
 	defer q.cond.L.Unlock()
 	if !q.inflightDrained {
@@ -193,6 +192,8 @@ func (q *Queue) Read(pids []packets.PacketID) (rs []*queue.Elem, err error) {
 	if q.closed {
 		return nil, queue.ErrClosed
 	}
+	// the time the messages are handed out, not the time the caller started to wait for them
+	now := time.Now()
 	length := q.l.Len()
 	if len(pids) < length {
 		length = len(pids)
